@@ -35,6 +35,9 @@ def _battery(args):
             obs = Q.obs_c15(c)
         elif prop == "C16":
             obs = Q.obs_c16(c, styles=opts.get("styles"), rotate=base + k)
+        elif prop == "C08":
+            obs = Q.obs_c08(c, lambda st=st: core.build(st, fl), assignments=_assignments(st, opts, base + k),
+                            form_rotate=base + k)
         else:
             raise ValueError(prop)
         # the queries are read-only: the tree must still project to the same state (C13, read-only half)
@@ -44,6 +47,37 @@ def _battery(args):
                         "r": {"s": "changed", "v": 0}})
         out.append({"id": base + k, "fl": flname, "st": st, "obs": obs})
     return out
+
+
+def _desc(st, p):
+    out, stack = [], list(st["top"] if p == 0 else st["kids"][p - 1])
+    while stack:
+        x = stack.pop()
+        out.append(x)
+        stack.extend(st["kids"][x - 1])
+    return sorted(out)
+
+
+def _assignments(st, opts, salt):
+    """all verdict assignments over the descendants of every start node (others are never asked);
+    beyond `full_max` descendants a seeded sample"""
+    import itertools
+    import random
+    n = st["n"]
+    rng = random.Random(opts.get("seed", 0) * 1000003 + salt)
+    for p in range(0, n + 1):
+        ds = _desc(st, p)
+        if not ds:
+            continue
+        if len(ds) <= opts.get("full_max", 3):
+            combos = itertools.product(Q.FVERD, repeat=len(ds))
+        else:
+            combos = (tuple(rng.choice(Q.FVERD) for _ in ds) for _ in range(opts.get("sample", 200)))
+        for combo in combos:
+            v = ["F"] * n
+            for i, vd in zip(ds, combo):
+                v[i - 1] = vd
+            yield p, v
 
 
 def run_states(rep, prop, states, flname, opts, label):
@@ -83,8 +117,9 @@ def run_states(rep, prop, states, flname, opts, label):
                        "wall_s": round(time.time() - t0, 1)})
 
 
-def shapes(rep, *, max_nodes, k=0, label):
-    res = P.mc_shapes(max_nodes=max_nodes, k=k)
+def shapes(rep, *, max_nodes, k=0, label, extra_inv=(), workers=1):
+    res = P.mc_shapes(max_nodes=max_nodes, k=k, workers=workers,
+                      invariants=("InvIter", "InvVisit", "InvRel", "InvTyped", "InvPrefix") + tuple(extra_inv))
     if not res.ok:
         raise P.TLCError(f"{label}: TLC found a law violated on the specification itself: {res.errors[:3]} {res.tail[-8:]}")
     rep.add_mc(res, label)
@@ -144,6 +179,17 @@ def run(prop: str, tier: str) -> int:
         run_states(rep, prop, sts, "str+typed", {}, "c15")
         if not quick:
             run_states(rep, prop, sts, "keyed+typed", {}, "c15-eq")
+    elif prop == "C08":
+        sts = shapes(rep, max_nodes=4 if quick else 5, label="shapes", extra_inv=("InvFilter",), workers=16)
+        o = {"full_max": 3 if quick else 5, "sample": 150, "seed": seed}
+        run_states(rep, prop, sts, "str", o, "c08")
+        sts2 = labelled(rep, max_nodes=3 if quick else 4, d=2 if quick else 3, label="labelled-clones")
+        run_states(rep, prop, sts2, "keyed", dict(o, full_max=3 if quick else 4), "c08-clones")
+        sts3 = shapes(rep, max_nodes=3 if quick else 4, k=2, label="typed-shapes")
+        run_states(rep, prop, sts3, "str+typed", dict(o, full_max=2 if quick else 3), "c08-typed")
+        rep.assumptions = ["predicates answer per node identity; verdict forms rotate over: returned instance, raised "
+                           "instance, returned class, raised class, StopIteration for stop",
+                           "falsy verdicts alternate between False and None"]
     elif prop == "C16":
         sts = shapes(rep, max_nodes=5 if quick else 6, label="shapes")
         run_states(rep, prop, sts, "str", {}, "c16")
